@@ -26,6 +26,8 @@ def qpi (s : Stack) : List (Nat × Out) × List (Dest × List SDEntry) × List C
 @[simp] theorem qpi_with_storeLog (s : Stack) (x : List (Bool × SvcKey × Addr)) : qpi { s with storeLog := x } = qpi s := rfl
 @[simp] theorem qpi_with_refreshLog (s : Stack) (x : List (Addr × SvcKey × Nat × Nat)) : qpi { s with refreshLog := x } = qpi s := rfl
 @[simp] theorem qpi_with_armLog (s : Stack) (x : List (Cb × Nat × Nat)) : qpi { s with armLog := x } = qpi s := rfl
+@[simp] theorem qpi_with_subMarks (s : Stack) (x : List (Option Nat × Nat)) : qpi { s with subMarks := x } = qpi s := rfl
+@[simp] theorem qpi_markRound (s : Stack) (n : Nat) : qpi (s.markRound n) = qpi s := rfl
 @[simp] theorem qpi_with_found_refreshLog (s : Stack) (x : TStore SvcKey) (y : List (Addr × SvcKey × Nat × Nat)) : qpi { s with found := x, refreshLog := y } = qpi s := rfl
 @[simp] theorem qpi_with_sendLog (s : Stack) (x : List (Dest × (Bool × Nat))) : qpi { s with sendLog := x } = qpi s := rfl
 @[simp] theorem qpi_with_subLog (s : Stack) (x : List (Addr × Nat × List Eventgroup)) : qpi { s with subLog := x } = qpi s := rfl
@@ -103,8 +105,8 @@ theorem qpi_cancelTimer_other (s : Stack) (own : Cb → Bool) (t : Option Nat) (
   qpi_cancelTimer_other s _ t (fun cb h => by cases cb <;> simp_all [isSubExpiry, isCollTimeout])
 @[simp] theorem qpi_cancelTimer_subFor (s : Stack) (i : Nat) (a : Addr) (k : SubKey) (t : Option Nat) : qpi (s.cancelTimer (isSubExpiryFor i a k) t) = qpi s :=
   qpi_cancelTimer_other s _ t (fun cb h => by cases cb <;> simp_all [isSubExpiryFor, isCollTimeout])
-@[simp] theorem qpi_cancelTimer_sleep (s : Stack) (t : Option Nat) : qpi (s.cancelTimer isSleep t) = qpi s :=
-  qpi_cancelTimer_other s _ t (fun cb h => by cases cb <;> simp_all [isSleep, isCollTimeout])
+@[simp] theorem qpi_cancelTimer_sleep (s : Stack) (tid : Tid) (t : Option Nat) : qpi (s.cancelTimer (isSleepFor tid) t) = qpi s :=
+  qpi_cancelTimer_other s _ t (fun cb h => by cases cb <;> simp_all [isSleepFor, isCollTimeout])
 @[simp] theorem qpi_cancelTimer_svcFor (s : Stack) (a : Addr) (k : SvcKey) (t : Option Nat) : qpi (s.cancelTimer (isSvcExpiryFor a k) t) = qpi s :=
   qpi_cancelTimer_other s _ t (fun cb h => by cases cb <;> simp_all [isSvcExpiryFor, isCollTimeout])
 
@@ -192,7 +194,7 @@ theorem qpi_cancelTimer_other (s : Stack) (own : Cb → Bool) (t : Option Nat) (
   unfold subscriberStart; split
   · rfl
   · simp only []
-    exact (qpi_with_subTask _ _).trans (by simp)
+    exact (qpi_with_subTask _ _).trans (by simp; rfl)
 
 @[simp] theorem qpi_subscriberStop (s : Stack) (b : Bool) : qpi (s.subscriberStop b) = qpi s := by
   unfold subscriberStop; split; rfl
